@@ -429,6 +429,9 @@ func (k *ck) evalSyntax(env *build.Env, text, mutation string) {
 		}
 		if r.sig == "" {
 			c.Feature("syntax:agreed")
+			if entry == "Parse" {
+				c.Sample("syntax", map[string]interface{}{"request": quote(text), "mutation": mutation, "first_offending_token": []int{r.refErr.TokStart, r.refErr.TokEnd}})
+			}
 			continue
 		}
 		sig := r.sig
@@ -685,6 +688,7 @@ func (k *ck) evalValidation(env *build.Env, doc *nast.Document, text, origin str
 			k.violation("validation:location:"+rule, bad, valDetail{Schema: env.Model.SDL(), Text: quote(text), Origin: origin, Rule: rule, Library: libErrs(vr.Errors), RefNodes: keys(all)})
 		} else {
 			c.Feature("validation:agreed:" + rule)
+			c.Sample("validation", map[string]interface{}{"request": quote(text), "rule": rule, "library_errors": libErrs(vr.Errors)})
 		}
 	}
 	// Do: every location of every validation error is the start of some offending node of some rule
